@@ -102,7 +102,7 @@ Proof.
   rewrite maxsize_framed. cbn [andb]. rewrite Enm.
   change (eqb_name name_senc name_trun) with false. change (eqb_name name_senc name_senc) with true. cbv iota.
 
-  pose proof (senc_pair_agree h body pre post eq_refl eq_refl ltac:(cbn [hsize h]; lia) Hs') as HA. unfold agree_at, senc_after_body_r in HA.
+  pose proof (senc_pair_agree h body pre post (or_introl eq_refl) eq_refl ltac:(cbn [hsize h]; lia) Hs') as HA. unfold agree_at, senc_after_body_r in HA.
   unfold senc_r. destruct (hsize h <? 16)%N.
   - rewrite HA. reflexivity.
   - destruct (read_box_body_canon nm body pre post c Hs' Hl) as [c' HB]. fold h in HB. rewrite HB. cbn [rbind ipos].
